@@ -1,8 +1,1083 @@
-//! C16 — monitor not built yet.
-use crate::report::{Cfg, Report};
+//! C16 — the tool loop answers each provider call exactly once and never runs a barred tool.
+//!
+//! The real engine (router + session loop + tool runner) is pointed at the scripted provider.
+//! Every scripted function call is a `write {append:true}` / `bash echo >>` of a unique token, so
+//! "executed" is read off the workspace. The oracle works on three recordings: the request bodies
+//! the provider received (in order), the session frames in events.jsonl, and the workspace files.
+//! What the provider "emitted" is re-derived from the bytes it served by an independent SSE
+//! reading (toolscript::emitted_calls), not taken from the engine.
+
+#[path = "toolscript.rs"]
+pub mod toolscript;
+
+use crate::fixture::{runtime, wait_for, App, Store};
+use crate::prng::Rng;
+use crate::report::{Cfg, Report, Tier};
+use crate::truth;
+use ripd::verif_export::{parse_tool_choice, OpenResponsesConfig, ToolChoiceParam};
+use serde_json::{json, Value};
+use std::collections::{BTreeMap, HashMap, HashSet};
+use std::time::Duration;
+use toolscript::{
+    build_turn, choice_allows, gen_call, gen_run, mark_prompt, workspace_text, CallKind, CallSpec, Emission, Fault,
+    GenOpts, Scripted, Turn, TurnParts,
+};
+
+pub const MAX_TOOL_CALLS: usize = 32;
+
+#[derive(Clone, Copy, Debug, PartialEq, Eq)]
+enum Route {
+    /// POST /sessions + POST /sessions/{id}/input (engine-level provider config)
+    Session,
+    /// POST /threads/{id}/messages without overrides (engine-level provider config)
+    ThreadEngine,
+    /// POST /threads/{id}/messages with an `openresponses` override (config is rebuilt by the route)
+    ThreadOverride,
+}
+
+impl Route {
+    fn label(&self) -> &'static str {
+        match self {
+            Route::Session => "session_input",
+            Route::ThreadEngine => "thread_message",
+            Route::ThreadOverride => "thread_message_override",
+        }
+    }
+}
+
+struct Case {
+    idx: u64,
+    /// provider-side run id (markers); unique per process so that one provider can serve many cases
+    run: u32,
+    directed: Option<&'static str>,
+    route: Route,
+    choice_label: String,
+    choice: ToolChoiceParam,
+    stateless: bool,
+    parallel: bool,
+    followup: Option<String>,
+    forever: bool,
+    turns: Vec<Turn>,
+}
+
+fn choice_pool() -> Vec<(&'static str, String)> {
+    let f = |names: &[&str]| -> Vec<Value> { names.iter().map(|n| json!({"type":"function","name":n})).collect() };
+    vec![
+        ("auto", "auto".into()),
+        ("none", "none".into()),
+        ("required", "required".into()),
+        ("function:write", "function:write".into()),
+        ("function:bash", "function:bash".into()),
+        ("function:read", "function:read".into()),
+        ("function:nosuch_tool", "function:nosuch_tool".into()),
+        ("allowed[write]", format!("json:{}", json!({"type":"allowed_tools","tools":f(&["write"])}))),
+        (
+            "allowed[bash,shell]/auto",
+            format!("json:{}", json!({"type":"allowed_tools","mode":"auto","tools":f(&["bash","shell"])})),
+        ),
+        (
+            "allowed[write,bash]/required",
+            format!("json:{}", json!({"type":"allowed_tools","mode":"required","tools":f(&["write","bash"])})),
+        ),
+        ("allowed[read,ls]", format!("json:{}", json!({"type":"allowed_tools","tools":f(&["read","ls"])}))),
+        (
+            "allowed[write]/none",
+            format!("json:{}", json!({"type":"allowed_tools","mode":"none","tools":f(&["write"])})),
+        ),
+        (
+            "allowed[apply_patch-hosted,write]",
+            format!(
+                "json:{}",
+                json!({"type":"allowed_tools","tools":[{"type":"apply_patch"},{"type":"function","name":"write"}]})
+            ),
+        ),
+    ]
+}
+
+fn choice_from(label: &str) -> (String, ToolChoiceParam) {
+    for (l, spec) in choice_pool() {
+        if l == label {
+            let p = parse_tool_choice(&spec).unwrap_or_else(|_| ToolChoiceParam::auto());
+            return (l.to_string(), p);
+        }
+    }
+    ("auto".into(), ToolChoiceParam::auto())
+}
+
+fn base_opts(idx: u64, run: u32) -> GenOpts {
+    GenOpts {
+        case: idx,
+        run,
+        turns: 2,
+        max_calls: 1,
+        duplicates: false,
+        unanswerable: false,
+        forever: false,
+        final_fault: Fault::None,
+        weird_events: false,
+        no_response_id_turn: None,
+    }
+}
+
+fn plain_parts(calls: Vec<CallSpec>) -> TurnParts {
+    TurnParts {
+        calls,
+        text_deltas: 1,
+        with_response_id: true,
+        fault: Fault::None,
+        malformed_json: false,
+        schema_invalid: false,
+        shuffle_all: false,
+        sequential: true,
+        chunked: false,
+    }
+}
+
+const DIRECTED: &[&str] = &[
+    "repeated_done/session",
+    "repeated_done/thread_stateless",
+    "two_items_same_call_id",
+    "endless_provider",
+    "choice_none",
+    "choice_function_write",
+    "choice_allowed_mode_none",
+    "long_call_id",
+    "config_fidelity_override",
+    "invalid_tool_choice",
+    "stateless_followup_message",
+    "no_response_id",
+    "endless_provider_stateless",
+];
+
+fn directed_case(seed: u64, idx: u64, name: &'static str, run: u32) -> Case {
+    let mut rng = Rng::derive(seed ^ 0xC16D, idx);
+    let o = base_opts(idx, run);
+    let mut case = Case {
+        idx,
+        run,
+        directed: Some(name),
+        route: Route::Session,
+        choice_label: "auto".into(),
+        choice: ToolChoiceParam::auto(),
+        stateless: false,
+        parallel: false,
+        followup: None,
+        forever: false,
+        turns: Vec::new(),
+    };
+    let two_turns = |rng: &mut Rng, calls: Vec<CallSpec>| -> Vec<Turn> {
+        let mut calls = calls;
+        for (i, c) in calls.iter_mut().enumerate() {
+            c.output_index = 1 + i as u64;
+        }
+        vec![
+            build_turn(rng, run, 0, plain_parts(calls)),
+            build_turn(rng, run, 1, plain_parts(Vec::new())),
+        ]
+    };
+    match name {
+        "repeated_done/session" => {
+            let c = gen_call(&mut rng, &o, 0, 0, CallKind::WriteAppend, Emission::RepeatedDone);
+            case.turns = two_turns(&mut rng, vec![c]);
+        }
+        "repeated_done/thread_stateless" => {
+            case.route = Route::ThreadEngine;
+            case.stateless = true;
+            let c = gen_call(&mut rng, &o, 0, 0, CallKind::BashEcho, Emission::RepeatedDone);
+            let d = gen_call(&mut rng, &o, 0, 1, CallKind::WriteAppend, Emission::Canonical);
+            case.turns = two_turns(&mut rng, vec![c, d]);
+        }
+        "two_items_same_call_id" => {
+            let mut a = gen_call(&mut rng, &o, 0, 0, CallKind::WriteAppend, Emission::Canonical);
+            let mut b = gen_call(&mut rng, &o, 0, 1, CallKind::WriteAppend, Emission::AddedFull);
+            b.call_id = a.call_id.clone();
+            a.shares_call_id = true;
+            b.shares_call_id = true;
+            case.turns = two_turns(&mut rng, vec![a, b]);
+        }
+        "endless_provider" | "endless_provider_stateless" => {
+            case.forever = true;
+            case.stateless = name.ends_with("stateless");
+            let mut o = o.clone();
+            o.forever = true;
+            o.max_calls = 5;
+            case.turns = gen_run(&mut rng, &o);
+        }
+        "choice_none" | "choice_function_write" | "choice_allowed_mode_none" => {
+            let label = match name {
+                "choice_none" => "none",
+                "choice_function_write" => "function:write",
+                _ => "allowed[write]/none",
+            };
+            let (l, p) = choice_from(label);
+            case.choice_label = l;
+            case.choice = p;
+            let a = gen_call(&mut rng, &o, 0, 0, CallKind::WriteAppend, Emission::Canonical);
+            let b = gen_call(&mut rng, &o, 0, 1, CallKind::BashEcho, Emission::DoneOnly);
+            let c = gen_call(&mut rng, &o, 0, 2, CallKind::ReadFile, Emission::AddedFull);
+            case.turns = two_turns(&mut rng, vec![a, b, c]);
+        }
+        "long_call_id" => {
+            let a = gen_call(&mut rng, &o, 0, 0, CallKind::LongCallId, Emission::Canonical);
+            case.turns = two_turns(&mut rng, vec![a]);
+        }
+        "config_fidelity_override" => {
+            case.route = Route::ThreadOverride;
+            let (l, p) = choice_from("none");
+            case.choice_label = l;
+            case.choice = p;
+            let a = gen_call(&mut rng, &o, 0, 0, CallKind::WriteAppend, Emission::Canonical);
+            case.turns = two_turns(&mut rng, vec![a]);
+        }
+        "invalid_tool_choice" => {
+            case.choice_label = "invalid".into();
+            case.choice = ToolChoiceParam::new(json!({"type":"bogus_choice","name":7}));
+            let a = gen_call(&mut rng, &o, 0, 0, CallKind::WriteAppend, Emission::Canonical);
+            case.turns = two_turns(&mut rng, vec![a]);
+        }
+        "stateless_followup_message" => {
+            case.stateless = true;
+            case.followup = Some("Please continue.".into());
+            let a = gen_call(&mut rng, &o, 0, 0, CallKind::WriteAppend, Emission::Canonical);
+            let b = gen_call(&mut rng, &o, 1, 0, CallKind::BashEcho, Emission::DeltasOnly);
+            let mut a = a;
+            a.output_index = 1;
+            let mut b = b;
+            b.output_index = 1;
+            case.turns = vec![
+                build_turn(&mut rng, run, 0, plain_parts(vec![a])),
+                build_turn(&mut rng, run, 1, plain_parts(vec![b])),
+                build_turn(&mut rng, run, 2, plain_parts(Vec::new())),
+            ];
+        }
+        "no_response_id" => {
+            let mut a = gen_call(&mut rng, &o, 0, 0, CallKind::WriteAppend, Emission::Canonical);
+            a.output_index = 1;
+            let mut p = plain_parts(vec![a]);
+            p.with_response_id = false;
+            case.turns = vec![
+                build_turn(&mut rng, run, 0, p),
+                build_turn(&mut rng, run, 1, plain_parts(Vec::new())),
+            ];
+        }
+        _ => {}
+    }
+    case
+}
+
+fn random_case(seed: u64, idx: u64, tier: Tier, run: u32) -> Case {
+    let mut rng = Rng::derive(seed, idx);
+    let route = match rng.below(10) {
+        0..=4 => Route::Session,
+        5..=7 => Route::ThreadEngine,
+        _ => Route::ThreadOverride,
+    };
+    let pool = choice_pool();
+    let label = if rng.chance(2, 5) { "auto" } else { pool[rng.usize(pool.len())].0 };
+    let (choice_label, choice) = choice_from(label);
+    let stateless = rng.chance(2, 5);
+    let forever = rng.chance(1, tier.pick(40, 25));
+    let final_fault = match rng.below(12) {
+        0 => Fault::NoDone,
+        1 => Fault::Http { status: [400u16, 401, 429, 500][rng.usize(4)], with_body: rng.bool(), echo: rng.bool() },
+        2 => Fault::EmptyBody,
+        3 => Fault::HeadersOnly,
+        _ => Fault::None,
+    };
+    let turns_n = 1 + rng.usize(6);
+    let opts = GenOpts {
+        case: idx,
+        run,
+        turns: turns_n,
+        max_calls: 1 + rng.usize(5),
+        duplicates: rng.chance(1, 3),
+        unanswerable: rng.chance(1, 6),
+        forever,
+        final_fault,
+        weird_events: rng.chance(1, 3),
+        no_response_id_turn: if !forever && rng.chance(1, 25) { Some(rng.usize(turns_n)) } else { None },
+    };
+    let mut turns = gen_run(&mut rng, &opts);
+    // a reset inside the last turn's body
+    if !forever && rng.chance(1, 12) {
+        if let Some(t) = turns.last_mut() {
+            if t.fault == Fault::None && !t.body.is_empty() {
+                t.fault = Fault::ResetAt(rng.usize(t.body.len() + 1));
+            }
+        }
+    }
+    Case {
+        idx,
+        run,
+        directed: None,
+        route,
+        choice_label,
+        choice,
+        stateless,
+        parallel: stateless && idx % 3 == 0,
+        followup: if rng.chance(1, 8) { Some("Continue with the task.".into()) } else { None },
+        forever,
+        turns,
+    }
+}
+
+fn make_case(seed: u64, idx: u64, tier: Tier, run: u32) -> Case {
+    if (idx as usize) < DIRECTED.len() {
+        directed_case(seed, idx, DIRECTED[idx as usize], run)
+    } else {
+        random_case(seed, idx, tier, run)
+    }
+}
+
+/// Engines are expensive to open (≈70 ms: router + HTTP client), so they are reused for the cases
+/// that ask for the same engine-level provider configuration; one scripted provider serves all of
+/// them. Everything is rotated every `POOL_GENERATION` cases. Judging only reads what a case
+/// appended (log offset) and that case's own tokens / provider run id.
+const POOL_GENERATION: usize = 250;
+const APP_MAX_USES: usize = 40;
+
+struct Pooled {
+    key: String,
+    app: App,
+    store: Store,
+    uses: usize,
+}
+
+struct Pool {
+    scripted: Scripted,
+    apps: Vec<Pooled>,
+    cases: usize,
+    next_run: u32,
+}
+
+impl Pool {
+    fn new() -> Pool {
+        Pool { scripted: Scripted::start(), apps: Vec::new(), cases: 0, next_run: 0 }
+    }
+
+    fn take_run(&mut self) -> u32 {
+        if self.cases >= POOL_GENERATION {
+            self.apps.clear();
+            self.scripted = Scripted::start();
+            self.cases = 0;
+        }
+        self.cases += 1;
+        self.next_run += 1;
+        self.next_run
+    }
+
+    fn app_for(&mut self, case: &Case) -> Result<usize, String> {
+        let key = format!(
+            "{}|{}|{}|{:?}|{}",
+            case.choice_label,
+            case.stateless,
+            case.parallel,
+            case.followup,
+            case.choice.value()
+        );
+        if let Some(i) = self.apps.iter().position(|p| p.key == key) {
+            if self.apps[i].uses < APP_MAX_USES && std::fs::metadata(self.apps[i].store.log_path()).map(|m| m.len()).unwrap_or(0) < 6_000_000 {
+                self.apps[i].uses += 1;
+                return Ok(i);
+            }
+            self.apps.remove(i);
+        }
+        if self.apps.len() >= 24 {
+            self.apps.remove(0);
+        }
+        let store = Store::new("c16");
+        let config = OpenResponsesConfig {
+            endpoint: self.scripted.provider.endpoint(),
+            api_key: None,
+            model: Some("m".into()),
+            headers: vec![],
+            tool_choice: case.choice.clone(),
+            followup_user_message: case.followup.clone(),
+            stateless_history: case.stateless,
+            parallel_tool_calls: case.parallel,
+        };
+        let app = App::open(&store, Some(config))?;
+        self.apps.push(Pooled { key, app, store, uses: 1 });
+        Ok(self.apps.len() - 1)
+    }
+}
 
 pub fn run(cfg: &Cfg) -> i32 {
-    let mut r = Report::new("C16", "exploration", "not built");
-    r.fatal_inconclusive("monitor not built yet");
+    let mut r = Report::new(
+        "C16",
+        "exploration",
+        "seeded provider conversations (1–6 turns, 0–5 function calls per turn emitted through added/delta/done \
+         items in interleaved or shuffled order, missing item ids, repeated done events, shared call ids, \
+         added-never-done, [DONE]-less turns, malformed/schema-invalid events, endless tool requests) × tool_choice \
+         (auto, none, required, function:X, allowed_tools lists and modes) × history mode × route (session input, \
+         thread message, thread message with override), 13 directed cases first; a case is non-trivial when the \
+         provider received ≥1 request and ≥1 completed call was judged; distinct = distinct (route, tool_choice, \
+         history mode, per-turn call kinds × emission classes, end reason) shapes",
+    );
+    r.assume("tools are observed through unique tokens appended to workspace files; a tool with no observable effect (read, unknown tool) is judged through frames and answers only");
+    r.assume("what the provider emitted is re-derived from the served bytes: a call is an output_item.done function_call item with a call_id");
+    let rt = runtime(4);
+    let mut fidelity: BTreeMap<String, u64> = BTreeMap::new();
+    let mut pool = Pool::new();
+
+    if let Some(path) = &cfg.replay {
+        let doc: Value = std::fs::read(path)
+            .ok()
+            .and_then(|b| serde_json::from_slice(&b).ok())
+            .unwrap_or(Value::Null);
+        let seed = doc.get("seed").and_then(|x| x.as_u64()).unwrap_or(cfg.seed);
+        let tier = if doc.get("tier").and_then(|x| x.as_str()) == Some("thorough") { Tier::Thorough } else { Tier::Quick };
+        match doc.get("witness").and_then(|w| w.get("case")).and_then(|x| x.as_u64()) {
+            Some(idx) => {
+                let run = pool.take_run();
+                let case = make_case(seed, idx, tier, run);
+                one_case(&mut r, &rt, &mut pool, case, seed, &mut fidelity);
+            }
+            None => r.fatal_inconclusive("replay file has no witness.case"),
+        }
+        return r.finish(cfg);
+    }
+
+    let max_cases = cfg.tier.pick(20_000u64, 10_000_000u64);
+    let mut idx = 0u64;
+    while idx < max_cases && !r.over(cfg) {
+        let i = idx;
+        idx += 1;
+        if !cfg.mine(i) {
+            continue;
+        }
+        let run = pool.take_run();
+        let case = make_case(cfg.seed, i, cfg.tier, run);
+        one_case(&mut r, &rt, &mut pool, case, cfg.seed, &mut fidelity);
+    }
+    r.note(
+        "config_fidelity",
+        json!({
+            "what": "requests whose declared tool_choice differs from the engine-level configured one, by route \
+                     (the thread route rebuilds the provider config with tool_choice=auto whenever a config is \
+                     resolved from files/env/overrides — server.rs thread_post_message); execution is judged \
+                     against the declared choice",
+            "declared_differs_from_configured": fidelity,
+        }),
+    );
+    if r.counters.get("calls_judged").copied().unwrap_or(0) == 0 && r.evaluations > 0 {
+        r.fatal_inconclusive("no completed provider call was ever judged");
+    }
+    drop(pool);
+    drop(rt);
     r.finish(cfg)
+}
+
+fn read_from(path: &std::path::Path, offset: u64) -> Vec<u8> {
+    use std::io::{Read, Seek, SeekFrom};
+    let mut out = Vec::new();
+    if let Ok(mut f) = std::fs::File::open(path) {
+        if f.seek(SeekFrom::Start(offset)).is_ok() {
+            let _ = f.read_to_end(&mut out);
+        }
+    }
+    out
+}
+
+fn input_items(body: &Value) -> Vec<Value> {
+    match body.get("input") {
+        Some(Value::String(s)) => vec![json!({"type":"message","role":"user","content":s})],
+        Some(Value::Array(a)) => a.clone(),
+        _ => Vec::new(),
+    }
+}
+
+fn is_followup_msg(item: &Value, followup: &Option<String>) -> bool {
+    match followup {
+        Some(f) => {
+            item.get("role").and_then(|x| x.as_str()) == Some("user")
+                && item.get("content").and_then(|x| x.as_str()) == Some(f.as_str())
+        }
+        None => false,
+    }
+}
+
+struct Outcome {
+    session_id: String,
+    ended: bool,
+    post_status: u16,
+}
+
+async fn drive(app: &App, store: &Store, case: &Case, endpoint: &str, watchdog: Duration, offset: u64) -> Outcome {
+    let prompt = format!("Do the scripted work. {}", mark_prompt(case.run));
+    let mut session_id = String::new();
+    let mut status = 0u16;
+    match case.route {
+        Route::Session => {
+            let (st, v) = app.json("POST", "/sessions", None).await;
+            if st == 201 {
+                session_id = v.get("session_id").and_then(|x| x.as_str()).unwrap_or("").to_string();
+                let (st2, _) = app
+                    .json("POST", &format!("/sessions/{session_id}/input"), Some(&json!({"input": prompt})))
+                    .await;
+                status = st2;
+            }
+        }
+        Route::ThreadEngine | Route::ThreadOverride => {
+            let (_, v) = app.json("POST", "/threads/ensure", None).await;
+            let tid = v.get("thread_id").and_then(|x| x.as_str()).unwrap_or("").to_string();
+            let mut body = json!({"content": prompt});
+            if case.route == Route::ThreadOverride {
+                let mut o = json!({
+                    "endpoint": endpoint, "model": "m-override",
+                    "stateless_history": case.stateless, "parallel_tool_calls": case.parallel,
+                });
+                if let Some(f) = &case.followup {
+                    o["followup_user_message"] = json!(f);
+                }
+                body["openresponses"] = o;
+            }
+            let (st, v) = app.json("POST", &format!("/threads/{tid}/messages"), Some(&body)).await;
+            status = st;
+            session_id = v.get("session_id").and_then(|x| x.as_str()).unwrap_or("").to_string();
+        }
+    }
+    if status != 202 || session_id.is_empty() {
+        return Outcome { session_id, ended: false, post_status: status };
+    }
+    let log_path = store.log_path();
+    let needle_sid = format!("\"{session_id}\"");
+    let thread = case.route != Route::Session;
+    let ended = wait_for(watchdog, || {
+        let bytes = read_from(&log_path, offset);
+        let text = String::from_utf8_lossy(&bytes);
+        let ty = if thread { "\"type\":\"continuity_run_ended\"" } else { "\"type\":\"session_ended\"" };
+        if text.lines().any(|l| l.contains(ty) && l.contains(&needle_sid)) {
+            Some(())
+        } else {
+            None
+        }
+    })
+    .await
+    .is_some();
+    Outcome { session_id, ended, post_status: status }
+}
+
+fn one_case(
+    r: &mut Report,
+    rt: &tokio::runtime::Runtime,
+    pool: &mut Pool,
+    case: Case,
+    seed: u64,
+    fidelity: &mut BTreeMap<String, u64>,
+) {
+    pool.scripted.set_run(case.run, case.turns.clone());
+    let slot = match pool.app_for(&case) {
+        Ok(i) => i,
+        Err(e) => {
+            r.inconclusive(&format!("case {}: engine open failed: {e}", case.idx));
+            return;
+        }
+    };
+    let endpoint = pool.scripted.provider.endpoint();
+    let offset = std::fs::metadata(pool.apps[slot].store.log_path()).map(|m| m.len()).unwrap_or(0);
+    let served_from = pool.scripted.served_len();
+    let watchdog = Duration::from_secs(if case.forever { 40 } else { 20 });
+    let out = rt.block_on(drive(&pool.apps[slot].app, &pool.apps[slot].store, &case, &endpoint, watchdog, offset));
+    if out.post_status != 202 {
+        r.inconclusive(&format!("case {}: post not accepted (status {})", case.idx, out.post_status));
+        pool.apps.remove(slot);
+        return;
+    }
+    if !out.ended {
+        r.inconclusive(&format!(
+            "case {} ({}): run did not end within the watchdog ({} provider requests for it so far)",
+            case.idx,
+            case.directed.unwrap_or("random"),
+            pool.scripted.requests_of(case.run).len()
+        ));
+        pool.apps.remove(slot); // never reuse an engine with a run possibly still in flight
+        return;
+    }
+    let log_tail = read_from(&pool.apps[slot].store.log_path(), offset);
+    let ws = pool.apps[slot].store.ws.clone();
+    judge(r, &log_tail, &ws, &pool.scripted, served_from, &case, &out.session_id, seed, fidelity);
+    // the scripts of this run are not needed any more
+    pool.scripted.scripts.lock().unwrap().remove(&case.run);
+}
+
+fn shape_of(case: &Case, reason: &str, n_requests: usize) -> String {
+    let mut s = format!(
+        "{}|{}|{}|req{}|{}|",
+        case.route.label(),
+        case.choice_label,
+        if case.stateless { "stateless" } else { "prev_id" },
+        n_requests.min(40),
+        reason
+    );
+    for t in case.turns.iter().take(8) {
+        let mut parts: Vec<String> = t
+            .calls
+            .iter()
+            .map(|c| format!("{:?}/{}", c.kind, c.class()))
+            .collect();
+        parts.sort();
+        s.push_str(&format!("[{};{}]", parts.join(","), t.fault.class()));
+    }
+    s
+}
+
+#[allow(clippy::too_many_arguments)]
+fn judge(
+    r: &mut Report,
+    log_tail: &[u8],
+    ws_root: &std::path::Path,
+    scripted: &Scripted,
+    served_from: usize,
+    case: &Case,
+    sid: &str,
+    seed: u64,
+    fidelity: &mut BTreeMap<String, u64>,
+) {
+    let idx = case.idx;
+    let witness = |detail: Value| {
+        json!({
+            "case": idx, "seed": seed, "directed": case.directed, "route": case.route.label(),
+            "tool_choice": case.choice.value(), "stateless_history": case.stateless,
+            "followup_user_message": case.followup, "turns": case.turns.len(),
+            "script_turn0": case.turns.first().map(|t| String::from_utf8_lossy(&t.body[..t.body.len().min(6000)]).to_string()),
+            "script_calls": case.turns.iter().take(8).map(|t| json!({
+                "fault": t.fault.class(),
+                "calls": t.calls.iter().map(|c| json!({"call_id": c.call_id, "name": c.name, "kind": format!("{:?}", c.kind),
+                    "emission": format!("{:?}", c.emission), "output_index": c.output_index, "args": c.args})).collect::<Vec<_>>(),
+            })).collect::<Vec<_>>(),
+            "detail": detail,
+        })
+    };
+    let frames = match truth::parse_log(log_tail) {
+        Ok(f) => f,
+        Err(e) => {
+            r.inconclusive(&format!("case {idx}: log unreadable: {}", e.detail));
+            return;
+        }
+    };
+    let sess: Vec<&truth::Frame> = truth::stream(&frames, "session", sid);
+    let reason = sess
+        .iter()
+        .rev()
+        .find(|f| f.ty() == "session_ended")
+        .map(|f| f.s("reason").to_string())
+        .unwrap_or_default();
+    // everything the provider received during this case (cases run one at a time)
+    let arrived = scripted.since(served_from);
+    let all_requests: Vec<crate::provider::Recorded> = arrived.iter().map(|(_, q)| q.clone()).collect();
+    let requests: Vec<(u32, crate::provider::Recorded)> = arrived
+        .iter()
+        .filter(|(s, _)| s.run == Some(case.run))
+        .map(|(s, q)| (s.turn.unwrap_or(0), q.clone()))
+        .collect();
+    r.eval();
+    r.count("provider_requests", all_requests.len() as u64);
+    r.count(&format!("route_{}", case.route.label()), 1);
+    r.count(&format!("end_reason_{reason}"), 1);
+    let ws = workspace_text(ws_root);
+    let occurrences = |tok: &str| ws.matches(tok).count();
+    let configured = case.choice.value().clone();
+
+    // ---- A. every body the provider received is a valid CreateResponse body
+    let mut bodies: Vec<Value> = Vec::new();
+    for rec in &all_requests {
+        let Some(body) = rec.json() else {
+            r.violation(
+                "C16/request_body_not_json",
+                "the provider received a request body that is not JSON",
+                witness(json!({"request_index": rec.index, "body": String::from_utf8_lossy(&rec.body[..rec.body.len().min(400)])})),
+            );
+            return;
+        };
+        if let Err(errs) = rip_openresponses::validate_create_response_body(&body) {
+            r.violation(
+                "C16/invalid_request_body_sent",
+                &format!("a request that fails rip_openresponses::validate_create_response_body was sent: {}", errs.join("; ")),
+                witness(json!({"request_index": rec.index, "errors": errs, "body": body})),
+            );
+        }
+        bodies.push(body);
+    }
+    r.count("request_bodies_validated", bodies.len() as u64);
+
+    if let Some((sv, rec)) = arrived.iter().find(|(s, _)| s.run != Some(case.run)) {
+        r.violation(
+            "C16/unexpected_request_sequence",
+            "the provider received a request that carries neither this run's prompt nor answers to one of its responses",
+            witness(json!({"request_index": rec.index, "routed_run": sv.run, "routed_turn": sv.turn,
+                           "body": rec.json()})),
+        );
+        return;
+    }
+    // ---- B. the run asks for turn 0,1,2,… once each
+    for (pos, (turn, rec)) in requests.iter().enumerate() {
+        if *turn as usize != pos {
+            r.violation(
+                "C16/unexpected_request_sequence",
+                &format!("request #{pos} of the run carries the answers/markers of turn {} (expected turn {pos})", *turn as i64 - 1),
+                witness(json!({"position": pos, "routed_turn": turn, "request_index": rec.index,
+                               "routing": requests.iter().map(|(t, q)| json!([q.index, t])).collect::<Vec<_>>()})),
+            );
+            return;
+        }
+    }
+
+    // ---- G. invalid_request gate
+    let started_frames = sess.iter().filter(|f| f.ty() == "openresponses_request_started").count();
+    let invalid_pos = sess.iter().position(|f| {
+        f.ty() == "provider_event"
+            && f.v.get("raw").map(|x| x.is_string()).unwrap_or(false)
+            && f.v.get("data").map(|x| x.is_null()).unwrap_or(true)
+            && f.s("status") == "event"
+            && f.v.get("errors").and_then(|x| x.as_array()).map(|a| !a.is_empty()).unwrap_or(false)
+    });
+    if let Some(p) = invalid_pos {
+        r.count("invalid_request_gates_seen", 1);
+        let later_start = sess[p + 1..].iter().any(|f| f.ty() == "openresponses_request_started");
+        if later_start || requests.len() > started_frames {
+            r.violation(
+                "C16/request_sent_after_invalid_request",
+                "a provider request was started after the run had logged an invalid_request frame",
+                witness(json!({"requests_received": requests.len(), "request_started_frames": started_frames})),
+            );
+        }
+        if reason != "invalid_request" {
+            r.violation(
+                "C16/invalid_request_not_terminal",
+                &format!("the run logged an invalid request frame but ended with reason {reason:?}"),
+                witness(json!({"reason": reason})),
+            );
+        }
+        // the refused body really is invalid (cross-check of the gate itself)
+        if let Some(raw) = sess[p].v.get("raw").and_then(|x| x.as_str()) {
+            if let Ok(b) = serde_json::from_str::<Value>(raw) {
+                if rip_openresponses::validate_create_response_body(&b).is_ok() {
+                    r.count("invalid_request_gate_refused_valid_body", 1);
+                }
+            }
+        }
+    }
+    if requests.len() > started_frames {
+        r.violation(
+            "C16/request_without_started_frame",
+            &format!("the provider received {} requests but the session logged {started_frames} request_started frames", requests.len()),
+            witness(json!({"requests": requests.len(), "frames": started_frames})),
+        );
+    }
+
+    // ---- C. declared tool_choice
+    let mut declared: Vec<Value> = Vec::new();
+    for (_, rec) in &requests {
+        let body = rec.json().unwrap_or(Value::Null);
+        let d = body.get("tool_choice").cloned().unwrap_or(Value::Null);
+        if d != configured {
+            *fidelity.entry(case.route.label().to_string()).or_insert(0) += 1;
+            if case.route != Route::ThreadOverride {
+                r.violation(
+                    &format!("C16/declared_tool_choice_differs_from_configured/{}", case.route.label()),
+                    &format!("request declares tool_choice {d} but the engine was configured with {configured}"),
+                    witness(json!({"declared": d, "configured": configured, "request_index": rec.index})),
+                );
+            }
+        }
+        declared.push(d);
+    }
+
+    // ---- D. per turn: executed at most once, answered exactly once, in order, never barred
+    let tool_started = sess.iter().filter(|f| f.ty() == "tool_started").count();
+    let mut landed_total = 0usize;
+    let mut judged_calls = 0u64;
+    for (i, turn) in case.turns.iter().enumerate() {
+        if i >= requests.len() {
+            break; // this turn was never requested
+        }
+        let emitted = turn.emitted();
+        let decl = &declared[i];
+        // effects
+        for c in &turn.calls {
+            let Some(tok) = &c.token else { continue };
+            let n = occurrences(tok);
+            landed_total += n;
+            if n > 1 {
+                r.violation(
+                    &format!("C16/call_handled_more_than_once/{}", c.class()),
+                    &format!(
+                        "one provider call (tool {}) was executed {n} times: its unique token is in the workspace {n} times",
+                        c.name
+                    ),
+                    witness(json!({"turn": i, "call_id": c.call_id, "token": tok, "occurrences": n, "emission": format!("{:?}", c.emission)})),
+                );
+            }
+            if n > 0 && !choice_allows(decl, &c.name) {
+                r.violation(
+                    &format!("C16/barred_tool_executed/{}", case.choice_label),
+                    &format!("tool {} ran although the request declared tool_choice {decl}", c.name),
+                    witness(json!({"turn": i, "call_id": c.call_id, "token": tok, "declared": decl})),
+                );
+            }
+            if n > 0 {
+                r.count("calls_executed_tokens_seen", n as u64);
+            }
+        }
+        if emitted.is_empty() {
+            continue;
+        }
+        judged_calls += emitted.len() as u64;
+        for e in &emitted {
+            if let Some(c) = turn.spec_for(&e.call_id) {
+                r.count(&format!("emission_{}", c.class()), 1);
+            }
+            if !choice_allows(decl, &e.name) {
+                r.count("calls_barred_by_declared_choice", 1);
+            }
+        }
+        let next = requests.get(i + 1);
+        let Some((_, next_rec)) = next else {
+            // nothing answered: must be excused
+            let excused = match reason.as_str() {
+                "max_tool_calls_exceeded" => tool_started >= MAX_TOOL_CALLS,
+                "invalid_request" => invalid_pos.is_some(),
+                "provider_error" => {
+                    turn.fault.is_transport() || (turn.response_id.is_none() && !case.stateless) || {
+                        // the follow-up request itself failed on the wire before reaching the provider
+                        sess.iter().filter(|f| f.ty() == "openresponses_request_started").count() > requests.len()
+                    }
+                }
+                _ => false,
+            };
+            if !excused {
+                let class = turn.spec_for(&emitted[0].call_id).map(|c| c.class()).unwrap_or("unknown");
+                r.violation(
+                    &format!("C16/calls_never_answered/{}/{class}", if reason.is_empty() { "no_reason" } else { reason.as_str() }),
+                    &format!(
+                        "turn {i} emitted {} completed call(s) but no follow-up request arrived; run ended with {reason:?}",
+                        emitted.len()
+                    ),
+                    witness(json!({"turn": i, "emitted": emitted.iter().map(|e| e.call_id.clone()).collect::<Vec<_>>(), "reason": reason})),
+                );
+            }
+            continue;
+        };
+        let next_body = next_rec.json().unwrap_or(Value::Null);
+        let items = input_items(&next_body);
+        // the part of the input that is new in this request
+        let new_items: Vec<Value> = if case.stateless {
+            let prev = input_items(&requests[i].1.json().unwrap_or(Value::Null));
+            let mut prev_len = prev.len();
+            if prev_len > 0 && is_followup_msg(&prev[prev_len - 1], &case.followup) && i > 0 {
+                prev_len -= 1;
+            }
+            items.iter().skip(prev_len.min(items.len())).cloned().collect()
+        } else {
+            items.clone()
+        };
+        let answers: Vec<(String, Value)> = new_items
+            .iter()
+            .filter(|it| it.get("type").and_then(|x| x.as_str()) == Some("function_call_output"))
+            .map(|it| {
+                let cid = it.get("call_id").and_then(|x| x.as_str()).unwrap_or("").to_string();
+                let out = it
+                    .get("output")
+                    .and_then(|x| x.as_str())
+                    .and_then(|s| serde_json::from_str::<Value>(s).ok())
+                    .unwrap_or(Value::Null);
+                (cid, out)
+            })
+            .collect();
+        r.count("answers_checked", answers.len() as u64);
+        let emitted_ids: Vec<&str> = emitted.iter().map(|e| e.call_id.as_str()).collect();
+        for e in &emitted {
+            let n_ans = answers.iter().filter(|(c, _)| c == &e.call_id).count();
+            let class = turn.spec_for(&e.call_id).map(|c| c.class()).unwrap_or("unknown");
+            if n_ans > 1 {
+                r.violation(
+                    &format!("C16/call_handled_more_than_once/{class}"),
+                    &format!(
+                        "call id answered {n_ans} times in the follow-up request ({} output_item.done events were served for it)",
+                        e.done_events
+                    ),
+                    witness(json!({"turn": i, "call_id": e.call_id, "answers": n_ans, "done_events": e.done_events,
+                                   "answer_ids": answers.iter().map(|(c, _)| c.clone()).collect::<Vec<_>>()})),
+                );
+            } else if n_ans == 0 {
+                r.violation(
+                    &format!("C16/call_not_answered/{class}"),
+                    "a completed provider call has no function_call_output in the very next request",
+                    witness(json!({"turn": i, "call_id": e.call_id,
+                                   "answer_ids": answers.iter().map(|(c, _)| c.clone()).collect::<Vec<_>>()})),
+                );
+            }
+        }
+        // a barred call is answered with an error output (judged per answer, by the tool the answer names)
+        for (cid, out) in &answers {
+            let name = out
+                .get("tool")
+                .and_then(|x| x.as_str())
+                .map(|s| s.to_string())
+                .or_else(|| emitted.iter().find(|e| &e.call_id == cid).map(|e| e.name.clone()))
+                .unwrap_or_default();
+            if !choice_allows(decl, &name) && out.get("ok").and_then(|x| x.as_bool()) != Some(false) {
+                r.violation(
+                    &format!("C16/barred_call_not_answered_with_error/{}", case.choice_label),
+                    "a call barred by the declared tool_choice was not answered with an error output",
+                    witness(json!({"turn": i, "call_id": cid, "output": out, "declared": decl})),
+                );
+            }
+        }
+        for (cid, out) in &answers {
+            if !emitted_ids.contains(&cid.as_str()) {
+                r.violation(
+                    "C16/answer_for_unemitted_call",
+                    "the follow-up request answers a call id the previous response never completed",
+                    witness(json!({"turn": i, "call_id": cid, "emitted": emitted_ids})),
+                );
+            }
+            // truthful answer: ok:true for a token-writing call implies the token is there
+            if out.get("ok").and_then(|x| x.as_bool()) == Some(true) {
+                let specs: Vec<&CallSpec> = turn.calls.iter().filter(|c| &c.call_id == cid).collect();
+                let args_well_defined = !(turn.shuffled && specs.iter().any(|c| c.emission == Emission::DeltasOnly));
+                if specs.len() == 1 && args_well_defined {
+                    if let Some(tok) = &specs[0].token {
+                        if matches!(specs[0].kind, CallKind::WriteAppend | CallKind::BashEcho | CallKind::LongCallId)
+                            && occurrences(tok) == 0
+                        {
+                            r.violation(
+                                "C16/answer_ok_without_effect",
+                                "a call was answered ok:true but its effect is not in the workspace",
+                                witness(json!({"turn": i, "call_id": cid, "token": tok})),
+                            );
+                        }
+                    }
+                }
+            }
+        }
+        // order, judged on the call ids that are unambiguous (emitted by exactly one item)
+        let unambiguous: HashSet<&str> = emitted
+            .iter()
+            .filter(|e| turn.calls.iter().filter(|c| c.call_id == e.call_id && c.emission != Emission::AddedOnly).count() == 1)
+            .map(|e| e.call_id.as_str())
+            .collect();
+        let want: Vec<&str> = emitted_ids.iter().copied().filter(|c| unambiguous.contains(c)).collect();
+        let mut seen: HashSet<&str> = HashSet::new();
+        let got: Vec<&str> = answers
+            .iter()
+            .map(|(c, _)| c.as_str())
+            .filter(|c| unambiguous.contains(c) && seen.insert(c))
+            .collect();
+        if got.len() == want.len() && got != want {
+            r.violation(
+                "C16/answers_out_of_output_order",
+                "function_call_output items are not in the provider's output_index order",
+                witness(json!({"turn": i, "want": want, "got": got})),
+            );
+        }
+        // continuity of the conversation
+        if !case.stateless {
+            let prev = next_body.get("previous_response_id").and_then(|x| x.as_str());
+            if turn.response_id.is_none() && prev.is_some() {
+                // the response carried no id: the engine chains the answers to an older response
+                r.count("followup_chained_to_older_response_id(response_without_id)", 1);
+            }
+            if let Some(rid) = &turn.response_id {
+                if prev != Some(rid.as_str()) {
+                    r.violation(
+                        "C16/followup_previous_response_id_mismatch",
+                        "the follow-up request does not point at the response that emitted the calls",
+                        witness(json!({"turn": i, "want": rid, "got": prev})),
+                    );
+                }
+            }
+        }
+    }
+    r.count("calls_judged", judged_calls);
+
+    // ---- E. stateless history: each input extends the previous one
+    if case.stateless {
+        for w in requests.windows(2) {
+            let a = input_items(&w[0].1.json().unwrap_or(Value::Null));
+            let b = input_items(&w[1].1.json().unwrap_or(Value::Null));
+            let strict = b.len() >= a.len() && a.iter().zip(b.iter()).all(|(x, y)| x == y);
+            let mut a2 = a.clone();
+            if let Some(last) = a2.last() {
+                if is_followup_msg(last, &case.followup) {
+                    a2.pop();
+                }
+            }
+            let lenient = b.len() >= a2.len() && a2.iter().zip(b.iter()).all(|(x, y)| x == y);
+            r.count("stateless_prefix_pairs_checked", 1);
+            if !lenient {
+                r.violation(
+                    "C16/stateless_input_not_extension",
+                    "in stateless-history mode a request's input does not have the previous request's input as a prefix",
+                    witness(json!({"prev_len": a.len(), "next_len": b.len(), "request_index": w[1].1.index})),
+                );
+            } else if !strict {
+                // ADR-0005: the follow-up user message is appended after the tool outputs of each
+                // follow-up and is not part of the accumulated history
+                r.count("stateless_prefix_holds_only_modulo_followup_user_message", 1);
+            }
+        }
+    } else {
+        // previous_response_id mode: a follow-up carries only answers (+ optional follow-up message)
+        for (pos, (_, rec)) in requests.iter().enumerate().skip(1) {
+            let items = input_items(&rec.json().unwrap_or(Value::Null));
+            let foreign = items
+                .iter()
+                .filter(|it| {
+                    it.get("type").and_then(|x| x.as_str()) != Some("function_call_output")
+                        && !is_followup_msg(it, &case.followup)
+                })
+                .count();
+            if foreign > 0 {
+                r.count("followup_with_extra_items", 1);
+            }
+            let _ = pos;
+        }
+    }
+
+    // ---- F. bound
+    if tool_started > MAX_TOOL_CALLS || landed_total > MAX_TOOL_CALLS {
+        r.violation(
+            "C16/tool_call_bound_exceeded",
+            &format!("{tool_started} tool_started frames / {landed_total} executed effects in one run (bound {MAX_TOOL_CALLS})"),
+            witness(json!({"tool_started": tool_started, "effects": landed_total})),
+        );
+    }
+    if case.forever {
+        r.count("endless_provider_runs", 1);
+        if reason != "max_tool_calls_exceeded" {
+            r.violation(
+                "C16/endless_provider_not_stopped",
+                &format!("a provider that always asks for tools ended the run with {reason:?} instead of max_tool_calls_exceeded"),
+                witness(json!({"reason": reason, "requests": requests.len(), "tool_started": tool_started})),
+            );
+        }
+        if requests.len() > MAX_TOOL_CALLS + 1 {
+            r.violation(
+                "C16/tool_call_bound_exceeded",
+                &format!("{} requests were sent to a provider that always asks for tools", requests.len()),
+                witness(json!({"requests": requests.len()})),
+            );
+        }
+    }
+    r.count("tool_started_frames", tool_started as u64);
+
+    if !requests.is_empty() && judged_calls > 0 {
+        r.distinct_str(&shape_of(case, &reason, requests.len()));
+    }
+    if r.samples.len() < r.max_samples && (case.directed.is_none() || idx == 0) {
+        let mut kinds: HashMap<String, u32> = HashMap::new();
+        for t in &case.turns {
+            for c in &t.calls {
+                *kinds.entry(format!("{:?}/{}", c.kind, c.class())).or_insert(0) += 1;
+            }
+        }
+        r.sample(json!({
+            "case": idx, "directed": case.directed, "route": case.route.label(), "tool_choice": case.choice_label,
+            "stateless_history": case.stateless, "scripted_turns": case.turns.len().min(40), "calls": kinds,
+            "requests_received": requests.len(), "tool_started_frames": tool_started, "effects_in_workspace": landed_total,
+            "end_reason": reason,
+        }));
+    }
 }
